@@ -146,8 +146,9 @@ class Registry:
         cands = self.contracts.get(key, [])
         if mode == "safety" and any(c.mode == "safety" for c in cands):
             cands = [c for c in cands if c.mode == "safety"]
-        else:
+        elif any(c.mode != "safety" for c in cands):
             cands = [c for c in cands if c.mode != "safety"]
+        # (a function that only has safety instances - the renderers - is used through them)
         best = None
         for c in cands:
             ok = c.call_site
